@@ -403,6 +403,9 @@ def r4_provenance(ctx, rule='R4'):
             for lp in walk_local(f.node):
                 if isinstance(lp, ast.For) and F.is_name(lp.target, parent.id) and src(lp.iter) == PARENTS:
                     loopvar_parent = True
+                if isinstance(lp, (ast.GeneratorExp, ast.ListComp)) and any(F.is_name(g_.target, parent.id) and src(g_.iter) == PARENTS
+                                                                            for g_ in lp.generators) and any(x is call for x in ast.walk(lp)):
+                    loopvar_parent = True
         colvar = None
         if f.name == 'run':
             lp = [n for n in walk_local(f.node) if isinstance(n, ast.For) and 'enumerate(row)' in src(n.iter)]
